@@ -213,6 +213,15 @@ fn also_as(r: &mut CaseResult, prop: &'static str, clause: &'static str) {
     r.failures.extend(extra);
 }
 fn run_c07(b: &[u8], t: Tier) -> Outcome {
+    // decoder 2: an eighth of the cases are expert-node histories (C14's generator) whose
+    // observability-change callback reads an observer: inside a stabilise that read must fail
+    if crate::choice::dv() >= 2 && b.len() >= 2 && b[0] % 8 == 7 {
+        let mut o = crate::c14::run_c14(&b[1..], t);
+        o.failures.retain(|f| f.prop == "C07");
+        o.classes.retain(|(k, _)| *k == "stabilises");
+        o.classes.push(("cases_reading_an_observer_from_an_expert_callback", 1));
+        return o;
+    }
     let mut r = run_case(&prof_c07(t), b, None);
     also_as(&mut r, "C07", "not-the-snapshot-at-the-call");
     let nt = r.classes.reads_between > 0 && r.classes.value_changed_reads > 0;
